@@ -34,7 +34,7 @@ RULE = ("call kinds {read(str path), read(Path), write(path), to_csv(path), writ
         "which the fault actually fired (or the induced exception was raised) while a handle opened by lasio existed")
 ASSUMPTIONS = [
     "faults are injected on read/readline/readlines/next/write/writelines/seek/tell, not on close(); a persistent fault additionally fails every later operation and flush()",
-    "failpoints are placed only in callee frames (reader.*, writer.*, update_start_stop_step, LASFile.data ...), never in LASFile.read/write/to_csv or open_with_codecs themselves: an exception raised between 'finally:' and 'close()' is not a failure lasio can be asked to survive",
+    "failpoints are placed only in callee frames (reader.*, writer.*, update_start_stop_step, LASFile.data ...), never in LASFile.read/write/to_csv, in open_with_codecs or in any function that itself calls open()/urlopen(), and never on the header line of a `with` statement or inside a `finally:` body: an exception raised between the end of a block and its __exit__/close() is not a failure lasio can be asked to survive",
     "a caller-supplied file object passed to read() may be closed by lasio (the statement speaks about write() and to_csv() only)",
 ]
 EXHAUSTIVE = "for every scenario of the grid, every fault position k = 1..N of its clean run (proxied I/O operations); thorough: also every executed line n = 1..M of the callee functions"
@@ -112,6 +112,29 @@ CSV_OPTS = [{}, {"units_loc": "[]"}, {"mnemonics": False, "units": False}, {"lin
 INDUCED_CSV = {"ragged_curves": {}, "bad_delimiter": {"delimiter": "ab"}, "bad_mnemonics_type": {"mnemonics": [1, 2, 3], "units_loc": "()"},
                "bad_lineterminator": {"lineterminator": 5}, "bad_quoting": {"quoting": "all"}}
 CALLEE_FUNCS = None
+OPENERS = {"open", "urlopen"}
+_CLEANUP_LINES = {}
+
+
+def cleanup_lines(filename):
+    """Lines at which an injected exception would not model a failing operation: the header of a `with`
+    statement (sys.monitoring reports it a second time when the block is left, just before __exit__ runs)
+    and the body of a `finally:` clause."""
+    if filename not in _CLEANUP_LINES:
+        import ast
+        lines = set()
+        try:
+            tree = ast.parse(open(filename, encoding="utf-8").read())
+            for node in ast.walk(tree):
+                if isinstance(node, (ast.With, ast.AsyncWith)):
+                    last = max(getattr(it.context_expr, "end_lineno", node.lineno) for it in node.items)
+                    lines.update(range(node.lineno, last + 1))
+                elif isinstance(node, ast.Try) and node.finalbody:
+                    lines.update(range(node.finalbody[0].lineno, node.finalbody[-1].end_lineno + 1))
+        except (OSError, SyntaxError):
+            pass
+        _CLEANUP_LINES[filename] = lines
+    return _CLEANUP_LINES[filename]
 CHUNK = 50
 
 
@@ -188,6 +211,8 @@ def setup(ctx):
         if fn in ("reader.py", "writer.py"):
             if q.split(".")[0] in ("open_file", "open_with_codecs", "adhoc_test_encoding", "get_encoding", "check_for_path_obj"):
                 continue
+            if any(OPENERS & set(c.co_names) for c in ctx.probe.by_name[(fn, q)]):
+                continue          # structural form of the same rule: a function that opens a file itself is not a callee frame
             names.append((fn, q))
         elif fn == "las.py" and q in ("LASFile.update_start_stop_step", "LASFile.update_units_from_index_curve", "LASFile.data",
                                       "LASFile.index", "LASFile.curves", "LASFile.well"):
@@ -283,6 +308,8 @@ def one_run(ctx, case, fail_at=None, line_at=None, sticky=False):
     fired_line = {"n": 0, "fired": False}
     if line_at is not None:
         def fp(code, line):
+            if line in cleanup_lines(code.co_filename):
+                return None
             fired_line["n"] += 1
             if fired_line["n"] == line_at:
                 fired_line["fired"] = True
@@ -291,6 +318,8 @@ def one_run(ctx, case, fail_at=None, line_at=None, sticky=False):
         ctx.probe.failpoint = fp
     elif case.get("count_lines"):
         def fp(code, line):
+            if line in cleanup_lines(code.co_filename):
+                return None
             fired_line["n"] += 1
             return None
         ctx.probe.failpoint = fp
